@@ -31,7 +31,7 @@ ITEM_HARNESS = {
     'types::SourceMapIndex::flatten': ['index_flatten', 'index_nested'], 'types::DecodedMap::lookup_token': ['index_nested', 'index_flatten'], 'hermes::SourceMapHermes::deref': ['hermes_scope'], 'types::SourceMapSectionIter::next': ['index_flatten'], 'types::SourceMapIndex::sections': ['index_flatten'],
     'types::SourceMapIndex::get_file': ['index_flatten'], 'types::SourceMapSection::get_sourcemap': ['index_flatten'], 'types::SourceMapIndex::get_section': ['index_flatten'],
     'hermes::SourceMapHermes::get_scope_for_token': ['hermes_scope'], 'hermes::decode_hermes__function_map': ['hermes_scope'], 'hermes::decode_hermes': ['hermes_scope'], 'types::DecodedMap::get_original_function_name': ['hermes_scope', 'function_name'],
-    'types::SourceMap::adjust_mappings::create_ranges': ['adjust', 'adjust_dups'], 'types::SourceMap::adjust_mappings': ['adjust', 'adjust_dups'], 'types::SourceMap::adjust_mappings::Range': ['adjust'], 'types::SourceMap::rewrite_with_mapping': ['rewrite'], 'types::SourceMap::rewrite': ['rewrite'], 'types::SourceMapIndex::flatten_and_rewrite': ['index_flatten', 'rewrite'], 'decoder::decode_regular__tail': ['decode_document', 'roundtrip'],
+    'types::SourceMap::adjust_mappings::create_ranges': ['adjust', 'adjust_dups'], 'types::SourceMap::adjust_mappings': ['adjust', 'adjust_dups'], 'types::SourceMap::adjust_mappings::Range': ['adjust'], 'types::SourceMap::rewrite_with_mapping': ['rewrite'], 'types::SourceMap::rewrite': ['rewrite'], 'types::SourceMapIndex::flatten_and_rewrite': ['index_flatten', 'rewrite'], 'decoder::decode_regular': ['decode_document', 'roundtrip'],
     'ram_bundle::IndexedRamBundle::parse': ['ram_bundle'], 'ram_bundle::IndexedRamBundle::get_module': ['ram_bundle'], 'ram_bundle::IndexedRamBundle::startup_code': ['ram_bundle'],
     'ram_bundle::IndexedRamBundle::module_count': ['ram_bundle'], 'ram_bundle::is_ram_bundle_slice': ['ram_bundle'], 'ram_bundle::RamBundleModuleIter::next': ['ram_bundle'],
     'ram_bundle::RamBundle::iter_modules': ['ram_bundle'], 'ram_bundle::RamBundle::get_module': ['ram_bundle'], 'ram_bundle::RamBundle::module_count': ['ram_bundle'],
